@@ -543,6 +543,11 @@ func definitelyDistinct(a, b *Term) bool {
 	if a.sort == SStr && a.op == "const" && b.op == "const" && a != b && strings.HasPrefix(a.name, "str!") && strings.HasPrefix(b.name, "str!") {
 		return true
 	}
+	// two different allocation sites/instances: fresh references are pairwise distinct by construction (each is above the
+	// watermark that covers all earlier ones)
+	if a.op == "const" && b.op == "const" && a != b && strings.HasPrefix(a.name, "ref!") && strings.HasPrefix(b.name, "ref!") {
+		return true
+	}
 	return false
 }
 
